@@ -206,7 +206,7 @@ func (jr *jpegReader) readAPP0() {
 // readAPP1
 func (jr *jpegReader) readAPP1() {
 	// APP1 Exif Marker
-	if isExifPrefix(jr.buf) {
+	if isExifPrefix(jr.buf) && jr.size >= exifPrefixLength { // (a shorter segment does not hold the prefix)
 		if logInfo() {
 			jr.logMarker("APP1 Exif")
 		}
@@ -265,6 +265,12 @@ func (jr *jpegReader) readExif() (err error) {
 	// Discard App Marker bytes and Exif header bytes
 	if err = jr.discard(2 + exifPrefixLength); err != nil {
 		return err
+	}
+
+	if remain < exifPrefixLength {
+		// the payload cannot hold a TIFF header (8 bytes): there is no Exif block to announce,
+		// and the bytes that follow belong to the next segment
+		return jr.discard(remain)
 	}
 
 	// Peek at TiffHeader information
